@@ -100,6 +100,10 @@ func setRejoinContext(ctx *context) error {
 }
 
 func createRejoinAnsPayload(ctx *context) error {
+	if ctx.rejoinReqPayload.RxDelay < 0 || ctx.rejoinReqPayload.RxDelay > 15 {
+		return errors.New("RxDelay must be in the range 0 - 15")
+	}
+
 	var cFList *lorawan.CFList
 	if len(ctx.rejoinReqPayload.CFList[:]) != 0 {
 		cFList = new(lorawan.CFList)
